@@ -117,8 +117,13 @@ class DirHandler(BaseHandler):
             return False
 
         if time.time() - statval[stat.ST_MTIME] < self.cachetime:
-            with self.vfs.open(self.cachename, "rb") as fp:
-                self.fileentries = pickle.load(fp)
+            try:
+                with self.vfs.open(self.cachename, "rb") as fp:
+                    self.fileentries = pickle.load(fp)
+            except Exception:
+                # A truncated or otherwise unreadable cache file (killed
+                # writer, full disk, concurrent rewrite) is a cache miss.
+                return False
             self.fromcache = True
             return True
         return False
